@@ -235,6 +235,25 @@ def run(ctx):
                 unknown.append(sig)
         if unknown:
             new_fail.append((c, unknown))
+    # ---- extended search: the correspondence broke but no generated case failed the oracle ----
+    extra_runs = 0
+    if (mism or tab_broken or unmodelled) and not new_fail:
+        for k in range(1, 5):
+            out2 = os.path.join(ctx.workdir, "extra_%d.jsonl" % k)
+            rc, o = vlib.sh([binp, "-seed", str(ctx.seed * 1000 + k), "-tier", "thorough", "-out", out2], timeout=3000)
+            if rc != 0:
+                break
+            extra_runs += 1
+            for line in open(out2):
+                c = json.loads(line)
+                if c["type"] == "tab" or not c["oracle"]:
+                    continue
+                sigs = sign_signatures(c) if c["type"] == "sign" else [hist_signature(c)]
+                unknown = [sg for sg in sigs if not vlib.match_known(PROP, sg)]
+                if unknown:
+                    new_fail.append((c, unknown))
+            if new_fail:
+                break
     seen_sig = set()
     for c, unknown in new_fail:
         key = json.dumps(unknown, sort_keys=True)
@@ -290,6 +309,7 @@ def run(ctx):
         "tabulation_ok": not tab_broken,
         "oracle_failures": len(oracle_fail),
         "oracle_failures_unknown": len(new_fail),
+        "extended_search_runs": extra_runs,
         "known_finding_hits": dict(known_hits),
         "sign_outcomes": dict(verdicts),
         "issued_identity_kinds": dict(issued_kinds),
@@ -299,5 +319,6 @@ def run(ctx):
         "history_answers": dict(hist_outs),
         "samples": sample,
         "exhaustive": False,
+        "exhaustive_small_scope": ("thorough tier: every CAOpSetRoots list of length <= 3 over IDs {a, b, ''} x active flags x {current, zero, stale/future index} on three base states: %d histories" % len([c for c in hists if c["source"] == "exhaustive"])) if ctx.tier == "thorough" else "thorough tier only",
     })
     return ctx.finish(cov, assumptions)
